@@ -194,7 +194,7 @@ theorem Keeps.putLoop (chunks : List (Nat × Bytes)) (maxPairs endIdx : Nat) :
   | cons s rest ih => intro st; unfold Fs.Dos3x.putLoop; keeps_using (ih _)
 macro_rules | `(tactic| keeps_step) => `(tactic| exact Keeps.putLoop _ _ _ _ _)
 
-theorem Keeps.writeFile (f : FImg) : Keeps (writeFile f) := by
+theorem Keeps.writeFile (f : FImg) (rp : Repairs := {}) : Keeps (writeFile f rp) := by
   unfold Fs.Dos3x.writeFile; keeps
 
 theorem Keeps.modifyM (name : Bytes) (lock : Option Bool) (newName : Option Bytes) (ftype : Option (Option Nat)) :
@@ -373,8 +373,8 @@ theorem init_hdr {d : Disk} (hc : d.c = 13 ∨ d.c = 16) (hs : d.raw.units.size 
       (Keeps.initM d.c) ⟨hc, by simp [hs], ⟨_, by simp [hi], hl, hh⟩⟩
 
 /-- every other operation keeps the header and the geometry -/
-theorem op_hdr {d : Disk} (h : HdrD d) (o : Op) (hi : ∀ vol sectors, o ≠ .init vol sectors) :
-    HdrD (o.run d).2 ∧ (o.run d).2.c = d.c := by
+theorem op_hdr {d : Disk} (h : HdrD d) (o : Op) (hi : ∀ vol sectors, o ≠ .init vol sectors) (rp : Repairs := {}) :
+    HdrD (o.run d rp).2 ∧ (o.run d rp).2.c = d.c := by
   have modify_case : ∀ {e : Disk}, HdrD e → ∀ n lk nn ft, HdrD (Fs.Dos3x.modify e n lk nn ft).2 ∧ (Fs.Dos3x.modify e n lk nn ft).2.c = e.c := by
     intro e he n lk nn ft
     unfold Fs.Dos3x.modify
@@ -384,10 +384,10 @@ theorem op_hdr {d : Disk} (h : HdrD d) (o : Op) (hi : ∀ vol sectors, o ≠ .in
   cases o with
   | init vol sectors => exact absurd rfl (hi vol sectors)
   | put f =>
-    show HdrD (Fs.Dos3x.put d f).2 ∧ (Fs.Dos3x.put d f).2.c = d.c
+    show HdrD (Fs.Dos3x.put d f rp).2 ∧ (Fs.Dos3x.put d f rp).2.c = d.c
     unfold Fs.Dos3x.put
     repeat' split
-    all_goals first | exact ⟨h, rfl⟩ | exact run_both (Keeps.writeFile f) h
+    all_goals first | exact ⟨h, rfl⟩ | exact run_both (Keeps.writeFile f rp) h
   | delete n => exact run_both (Keeps.deleteM n) h
   | rename o n =>
     show HdrD (Fs.Dos3x.rename d o n).2 ∧ (Fs.Dos3x.rename d o n).2.c = d.c
